@@ -60,6 +60,8 @@ pub struct Link {
 pub struct SimNode {
     pub node: Node,
     pub alive: bool,
+    /// frames from and to this node are dropped (the node itself keeps running)
+    pub muted: bool,
     pub link_of_port: Vec<Option<usize>>,
     /// armed deadline per port and timer kind
     pub timers: Vec<[Option<u64>; 5]>,
@@ -152,6 +154,7 @@ impl Sim {
         let mut sn = SimNode {
             node,
             alive: true,
+            muted: false,
             link_of_port: vec![None; n],
             timers: vec![[None; 5]; n],
             timer_gen: vec![[0; 5]; n],
@@ -215,6 +218,9 @@ impl Sim {
             self.logev(node, port, LogKind::Tx { msg_type: m.hdr.msg_type, event, len: data.len() });
         }
         self.last_tx.push((node, port, event, data.clone()));
+        if self.nodes[node].muted {
+            return;
+        }
         let Some(li) = self.nodes[node].link_of_port[port] else { return };
         let link = self.links[li].clone();
         if !link.up {
@@ -316,7 +322,7 @@ impl Sim {
         match ev.kind {
             EvKind::Deliver { node, port, data, event, from } => {
                 self.order_hash = (self.order_hash ^ (0x100 + node as u64 * 16 + port as u64 + ((from.0 as u64) << 12))).wrapping_mul(0x100000001b3);
-                if !self.nodes[node].alive {
+                if !self.nodes[node].alive || self.nodes[node].muted {
                     return true;
                 }
                 if let Ok(m) = Msg::decode(&data) {
